@@ -132,8 +132,14 @@ func (fr *Frame) call(instr ssa.Instruction, cc *ssa.CallCommon, pos token.Pos) 
 				for i, a := range args {
 					vars[fmt.Sprintf("$%d", i)] = valToEV(a, fr.argType(cc, i))
 				}
-				goal := Implies(fr.cur, ctx.with(vars).Bool(aa.Clause.E))
-				fr.R.addObl("assert", aa.Callee+":"+aa.Clause.Label, goal, aa.Clause.Src, &aa.Clause, pos)
+				t, ok := ctx.with(vars).tryBool(aa.Clause.E)
+				goal := Implies(fr.cur, t)
+				src := aa.Clause.Src
+				if !ok {
+					goal = Not(fr.cur)
+					src += "   [cannot be evaluated on this code: a tracked call, local or snapshot it names does not exist any more]"
+				}
+				fr.R.addObl("assert", aa.Callee+":"+aa.Clause.Label, goal, src, &aa.Clause, pos)
 				fr.R.addCover("assert-"+aa.Clause.Label+"-reachable", fr.cur)
 			}
 		}
